@@ -266,4 +266,36 @@ def run(ctx, prog):
         okf = bool(fin) and all(h.bb in (hk.reach([tg]) | {tg}) for _, tg in fin)
         ctx.inst('C06.R4', hk.short, 'a non-finite distance skips the document and continues the scan', okf, 'skip edges: %s' % fin[:1])
     distance_scales(ctx, prog, 'C06.R5')
+    # ------------------------------------------------------------------ R6 slot numbers do not survive a compaction
+    ctx.rule('C06.R6', 'tombstone compaction renumbers every internal slot. In each function that calls HnswBackend::compact_tombstones, a slot number obtained from '
+                       'DocumentStore.external_to_internal is never used after the compaction without a fresh lookup in between (a stale number tombstones or rewrites '
+                       'whatever document now sits there: the overwritten document is returned twice with its old vector, an unrelated live document vanishes)')
+    n6 = 0
+    for c0 in prog.callers_of('HnswBackend::compact_tombstones'):
+        f = c0.body
+        if any(x['key'].startswith('C06.R6 | %s |' % f.short) for x in ctx.instances):
+            continue
+        of6 = flow.Origin(f)
+        comp = [c for c in f.calls if c.callee and c.callee.endswith('HnswBackend::compact_tombstones')]
+        look = [c for c in f.calls if c.callee and re.search(r'::get(_mut)?$|::contains_key$|::remove$', c.callee) and c.args and
+                flow.render(of6.of_operand(c.args[0])).endswith('DocumentStore.external_to_internal')]
+        uses = []
+        for c in f.calls:
+            if c in look or not c.callee:
+                continue
+            if any(a.get('k') in ('mv', 'cp') and re.search(r'DocumentStore\.external_to_internal, [^)]*\)', flow.render(of6.of_operand(a))) for a in c.args):
+                uses.append(c.bb)
+        for i_, blk in enumerate(f.blocks):
+            if i_ in f.live_blocks() and blk['t']['k'] == 'switch':
+                d_ = blk['t'].get('d')
+                if d_ and d_.get('k') in ('mv', 'cp') and 'DocumentStore.external_to_internal, ' in flow.render(of6.of_operand(d_)):
+                    uses.append(i_)
+        n6 += len(comp)
+        starts = [c.to for c in comp if c.to is not None]
+        r6 = (f.reach(starts, avoid_blocks=[c.bb for c in look]) | set(starts)) if starts else set()
+        stale = sorted(set(u for u in uses if u in r6))
+        ctx.inst('C06.R6', f.short, 'no slot number is used across a compaction without a fresh lookup', bool(comp) and bool(look) and bool(uses) and not stale,
+                 ('the slot looked up before the compaction is used at %s after it' % f.loc_of(stale[0])) if stale else
+                 '%d compaction call(s), %d lookup(s), %d use site(s) of looked-up slots; every use after a compaction is behind a new lookup' % (len(comp), len(look), len(set(uses))))
+    ctx.floor('C06.R6', 'compaction call sites', n6, 1, 'HnswBackend::insert (full index with tombstones)')
     ctx.stat('functions_analysed', len(set(i['key'].split(' | ')[1] for i in ctx.instances)))
